@@ -28,7 +28,11 @@ def mkCtx (sc : Scen) : Ctx :=
   let anyDisconnect := sc.calls.any fun c =>
     (c.call.headD "" == "disc" && c.result == "ok") ||
     (c.call == ["events"] && (c.result.splitOn "Disconnected:").length > 1) ||
-    c.status.any (·.1)
+    c.status.any (·.1) ||
+    -- an endpoint (player or spectator) that left the Running state
+    ((kvGet c.snap "eps").getD "_" |>.splitOn ",").any (fun t => match t.splitOn ":" with
+      | _ :: _ :: st :: _ => st == "3" || st == "4"
+      | _ => false)
   let anyPanic := sc.calls.any (·.result == "PANIC")
   { sc, p2p, sims, streams, lastCall, anyDisconnect, anyPanic }
 
@@ -116,7 +120,7 @@ def monitorC02 (cx : Ctx) : List Finding := Id.run do
         match c.requests with
         | none => pure ()
         | some reqs =>
-          let toks := c.gtoks
+          let toks := c.reqToks
           -- walk requests and game tokens together
           let mut gi := 0
           let mut gameFrame : Option Int := none
@@ -253,7 +257,7 @@ def monitorC04 (cx : Ctx) : List Finding := Id.run do
         match c.requests with
         | none => pure ()
         | some reqs =>
-          let toks := c.gtoks
+          let toks := c.reqToks
           let mut gameFrame : Int := prevCur
           for (r, t) in reqs.zip toks do
             match r, t with
@@ -281,7 +285,7 @@ def monitorPanics (cx : Ctx) (prop : String) : List Finding :=
 
 def runMonitor (prop : String) (cx : Ctx) : List Finding :=
   match prop with
-  | "C01" => monitorC01 cx ++ monitorPanics cx "C01"
+  | "C01" => monitorC01 cx ++ (if cx.anyDisconnect then [] else monitorPanics cx "C01")
   | "C02" => monitorC02 cx
   | "C03" => monitorC03 cx
   | "C04" => monitorC04 cx
